@@ -9,15 +9,23 @@ import os
 V = os.path.dirname(os.path.dirname(os.path.abspath(__file__)))
 
 # ---- C10: immediates outside the representable range are accepted (silently wrapped / masked)
+# {isa: {operand slot: {class: categories}}}; categories (from TLC's table, RV32_Gen!Category):
+# lo / hi = outside the range but inside [-2^bits, 2^bits), ll / hh = beyond that, mis = misaligned, nz = reserved zero
+TOKEN = ("lo", "hi")               # limited only by Token.__setitem__
+MASKED = ("lo", "ll", "hi", "hh")  # encode() masks the value: everything is accepted
 IMM_OUT = {
     "riscv": {
-        "offset": ["addi_ins", "slti_ins", "sltiu_ins", "xori_ins", "ori_ins", "andi_ins", "Blr",
-                   "Lb", "Lh", "Lw", "Lbu", "Lhu", "Sb", "Sh", "Sw"],
-        "imm": ["SlliShiftImm", "SrliShiftImm", "SraiShiftImm", "Lui", "Auipc", "Csrwi", "Csrsi", "Csrci"],
+        "offset": dict([(c, MASKED) for c in ["addi_ins", "slti_ins", "sltiu_ins", "xori_ins", "ori_ins", "andi_ins",
+                                              "Sb", "Sh", "Sw"]] +
+                       [(c, TOKEN) for c in ["Blr", "Lb", "Lh", "Lw", "Lbu", "Lhu"]]),
+        "imm": {"SlliShiftImm": ("lo",), "SrliShiftImm": ("lo",), "SraiShiftImm": ("lo",), "Lui": ("lo", "ll", "hh"),
+                "Auipc": ("lo",), "Csrwi": ("lo",), "Csrsi": ("lo",), "Csrci": ("lo",)},
     },
     "rvc": {
-        "imm": ["CLi", "CLui", "CAddi16sp", "CAddi4spn", "CSlli", "c_srli_ins", "c_srai_ins"],
-        "offset": ["CLw", "CSw", "CLwsp", "CSwsp"],
+        "imm": {"CLi": MASKED, "CLui": MASKED + ("nz",), "CAddi16sp": MASKED + ("mis", "nz"),
+                "CAddi4spn": ("lo", "ll", "hh", "mis", "nz"), "CSlli": ("lo", "ll", "hh"),
+                "c_srli_ins": ("lo",), "c_srai_ins": ("lo",)},
+        "offset": {c: ("lo", "ll", "hh", "mis") for c in ["CLw", "CSw", "CLwsp", "CSwsp"]},
     },
 }
 # ---- C10: displacements in [2^(n-1), 2^n) are accepted by the relocations (bitfun.wrap_negative)
@@ -80,6 +88,7 @@ def entries():
             add(lst, prop, "%s:rvc:%s:*:rs:sweep:*" % (prop, cls), what)
             add(lst, prop, "%s:rvc:%s:*:rd:sweep:*" % (prop, cls), what + "; rd outside x8..x15 wraps")
             add(lst, prop, "%s:rvc:%s:*:%s x10, x11, *" % (prop, cls, mn), what)
+            add(lst, prop, "%s:rvc:%s:*:random:ne:*" % (prop, cls), what)
         for cls, (mn, shapes) in sorted(PRIME.items()):
             for sh in shapes:
                 add(lst, prop, "%s:rvc:%s:*:%s %s" % (prop, cls, mn, sh),
@@ -96,20 +105,49 @@ def entries():
         add(c08, "C08", "C08:rvc:%s:*:m4=[123]:*" % cls,
             "%s selects c.%s for any offset in 0..127; offsets that are not multiples of 4 lose their low bits" % (cls, mn))
     # ---------------- C10 only
+    catname = {"lo": "below the representable range (>= -2^bits)", "hi": "above the representable range (< 2^bits)",
+               "ll": "below -2^bits", "hh": ">= 2^bits",
+               "mis": "not a multiple of the field's scale", "nz": "0 (a reserved encoding)"}
     for which, slots in sorted(IMM_OUT.items()):
         for slot, classes in sorted(slots.items()):
-            for cls in classes:
-                add(c10, "C10", "C10:%s:%s:*:%s:out:*" % (which, cls, slot),
-                    "%s: values of '%s' outside the representable range are accepted and wrapped / masked "
-                    "(Token.__setitem__ accepts [-2^n, 2^n), several encode() methods mask explicitly)" % (cls, slot))
+            for cls, cats in sorted(classes.items()):
+                for cat in cats:
+                    add(c10, "C10", "C10:%s:%s:*:%s:%s:*" % (which, cls, slot, cat),
+                        "%s: values of '%s' %s are accepted and wrapped / masked instead of rejected "
+                        "(Token.__setitem__ accepts [-2^n, 2^n), several encode() methods mask explicitly)" % (
+                            cls, slot, catname[cat]))
     for which, classes in sorted(TARGET_OUT.items()):
         for cls in classes:
-            add(c10, "C10", "C10:%s:%s:*:target:out:*" % (which, cls),
+            add(c10, "C10", "C10:%s:%s:*:target:hi:*" % (which, cls),
                 "%s: displacements in [2^(n-1), 2^n) are accepted by the relocation (bitfun.wrap_negative) and alias "
                 "backward branches (fix: proposed_fixes/C10-riscv-relocation-signed-range.patch)" % cls)
     for cls in ODD_SYMBOL:
         add(c10, "C10", "C10:riscv:%s:*:label:addr:odd:*" % cls,
             "%s: a symbol at an odd address (byte data) is refused with an AssertionError although %%hi/%%lo can express it" % cls)
+    # ---------------- C10, relocations of other targets (judged with Reloc.tla; thorough tier)
+    d10 = "[1-9]" + "[0-9]" * 9
+    for pat in ("d=" + d10, "d=-" + d10):
+        add(c10, "C10", "C10:x86_64:reloc:rel32:*:" + pat,
+            "x86_64 rel32: displacements outside [-2^31, 2^31) (up to +-2^32) are accepted and wrapped (struct pack of the low 32 bits)")
+    for pat in ("d=[12][0-9][0-9]", "d=-[12][0-9][0-9]"):
+        add(c10, "C10", "C10:x86_64:reloc:jmp8:*:" + pat,
+            "x86_64 jmp8 (jmpshort): displacements outside [-128, 127] (up to about +-256) are accepted and wrapped")
+    add(c10, "C10", "C10:arm:reloc:imm24:*:fwd:*:d=[3-6]" + "[0-9]" * 7,
+        "arm imm24 (b / bl / bcc): forward displacements in [2^25, 2^26) are accepted (bitfun.wrap_negative) and alias backward branches")
+    for rt in ("ldr_imm12", "adr_imm12"):
+        add(c10, "C10", "C10:arm:reloc:%s:*:m4=[123]:*" % rt,
+            "arm %s: a displacement that is not a multiple of 4 is refused with an AssertionError although the 12-bit byte offset can express it" % rt)
+    for d in ("d=4104", "d=-4088"):
+        add(c10, "C10", "C10:arm:reloc:adr_imm12:*:" + d,
+            "arm adr_imm12: +-4096 (a rotated 8-bit immediate) is refused with an AssertionError")
+    for rt, pats in (("bl_imm11", ("d=167772[01][0-9]", "d=-167772[01][0-9]")),
+                     ("b_imm11_imm6", ("d=10485[67][0-9]", "d=-10485[67][0-9]"))):
+        for pat in pats:
+            add(c10, "C10", "C10:thumb:reloc:%s:*:%s" % (rt, pat),
+                "thumb %s: near the ends of the range the S/J1/J2 bits are set without the I1 = NOT(J1 EOR S) inversion, the field "
+                "designates a different address (or the largest offset is refused)" % rt)
+    add(c10, "C10", "C10:thumb:reloc:rel8:*:d=258", "thumb rel8: the largest forward displacement (254 from PC) is refused (AssertionError)")
+    add(c10, "C10", "C10:thumb:reloc:wrap_new11:*:d=2050", "thumb wrap_new11: the largest forward displacement (2046 from PC) is refused (AssertionError)")
     # ---------------- C07
     add(c07, "C07", "C07:rvc:CAddi:*", "CAddi declares rd write-only although c.addi reads rd "
         "(fix: proposed_fixes/C07-rvc-read-write-annotations.patch)")
